@@ -4,7 +4,7 @@ use crate::rng::fnv;
 use std::fmt::Write;
 use sv_parser::{Defines, Error, Locate, PreprocessedText, RefNode, SyntaxTree};
 
-#[derive(Clone, Debug, PartialEq, Eq)]
+#[derive(Clone, Debug, PartialEq, Eq, serde::Serialize, serde::Deserialize)]
 pub struct Digest {
     /// "Ok" or "Err:<outer variant>"
     pub kind: String,
